@@ -79,6 +79,21 @@ func labCmd(args []string) error {
 		nl, ns = 24, 20000
 	}
 	const r0 = 216.0 / 24389.0
+	// the same colour under one white after another, and the same Lab value back under one white
+	// after another (a conversion is a function of BOTH its arguments, whatever came before)
+	for i := 0; i < 60; i++ {
+		c := ciexyz.Color{X: rng.Float32() * 1.2, Y: rng.Float32() * 1.2, Z: rng.Float32() * 1.2}
+		if i%4 == 0 {
+			c = whites[i/4%len(whites)] // each white as a colour: (100, 0, 0) under itself only
+		}
+		for _, w := range whites {
+			emitLab(c, w, nil)
+		}
+		l := cielab.Color{L: 100 * rng.Float32(), A: 100*rng.Float32() - 50, B: 100*rng.Float32() - 50}
+		for _, w := range whites {
+			emitInv(l, w)
+		}
+	}
 	for _, w := range whites {
 		// the white itself, multiples of it (greys), black
 		for _, t := range []float32{1, 0, 0.5, 0.18, 2, 0.001, float32(r0), 0.0088, 0.0089} {
